@@ -24,6 +24,7 @@ import Mahotas.Proofs.C12Exceptions
 import Mahotas.Proofs.C12Label
 import Mahotas.Proofs.C12Cwatershed
 import Mahotas.Proofs.C12Kernels2
+import Mahotas.Proofs.C12Histogram
 import Mahotas.Generated.Statics
 namespace Mahotas.C12
 open Mahotas
@@ -1105,3 +1106,50 @@ example :
   decide +kernel
 
 end Mahotas.C12.Examples2
+
+
+/-! ## Round 4 — `compute_histogram` (`_histogram.cpp`, behind `fullhistogram`, `otsu`, `rc`, `pftas`) -/
+
+open Mahotas Mahotas.C12 in
+/-- **C12-T4 (tie: the histogram program computes `C13.histogram`).** `compute_histogram` is
+`for (i = 0; i != N; ++i) { ++histogram[*data]; ++data; }`: the labeled fold `result[l] = f(v, result[l])` with the image as
+its own label array and `f _ r = r + 1`, so its access program is `Kernel.fold` on the footprint `[aA, aA] → [aRes, aReg]`
+(the same argument array in both input roles: confinement, role well-formedness and independence under every schedule are
+the instances of `C12_kernel_confined`, `C12_kernel_roles_wellformed`, `C12_concurrent_kernels_independent`). Value tie: if
+the memory of array `aA` holds `mA` and the values the iterator reads are non-negative (the wrapper admits unsigned images
+only), then after the SOLO run of the compiled program — zero fill, then one read-modify-write of `histogram[value]` per
+element — bin `j < n` holds exactly `(C13.histogram n values)[j]`, the model the driver runs (`c13 kind=hist`). -/
+theorem C12_histogram_program_computes_model (kcs : List KCall) (t : Nat) (n : Nat) (vA : C08.View) (mA : Int → Int)
+    (aA aRes aReg : Nat)
+    (hk : kcs[t]? = some ((Kernel.fold (fun (_ r : Int) => r + 1) 0 n vA vA mA).call ⟨[aA, aA], [aRes, aReg]⟩))
+    (h1 : aA ≠ aRes) (h2 : aA ≠ aReg) (h5 : aRes ≠ aReg) (m : Mem)
+    (hA : ∀ a, m ((KLoc.mk aA a).toLoc (kcs.map (·.call))) = mA a)
+    (hnn : ∀ k, k < shapeSize vA.shape → 0 ≤ C08.readIter mA vA k)
+    (j : Nat) (hj : j < n) :
+    solo (compile kcs) t m ((KLoc.mk aRes (j : Int)).toLoc (kcs.map (·.call))) =
+      (((C13.histogram n ((List.range (shapeSize vA.shape)).map (C08.readIter mA vA))).getD j 0 : Nat) : Int) := by
+  have h := C12_labeled_fold_program_computes_model kcs t (fun (_ r : Int) => r + 1) 0 n vA vA mA mA aA aA aRes aReg hk
+    h1 h2 h1 h2 h5 m hA hA j hj
+  unfold C08.labeledFoldView at h
+  simp only at h
+  rw [hist_fold_eq n _ (by
+    intro v hv
+    simp only [List.mem_map, List.mem_range] at hv
+    obtain ⟨k, hk', rfl⟩ := hv
+    exact hnn k hk')] at h
+  rw [Array.getElem?_map] at h
+  generalize C13.histogram n ((List.range (shapeSize vA.shape)).map (C08.readIter mA vA)) = H at h ⊢
+  rw [Array.getD_eq_getD_getElem?]
+  cases hH : H[j]? with
+  | none => rw [hH] at h; simp at h
+  | some c => rw [hH] at h; simp at h; simp [h]
+
+namespace Mahotas.C12.Examples4
+open Mahotas Mahotas.C12
+/-- non-vacuity: the fold model with the image as its own labels IS the histogram, on a reversed strided view -/
+def memH : Int → Int := fun a => [2, 9, 0, 9, 2, 9, 1].getD a.toNat 0
+def vHr : C08.View := { base := 6, shape := [4], strides := [-2] }
+example : (List.range 4).map (C08.readIter memH vHr) = [1, 2, 0, 2] ∧
+    (C08.labeledFoldView (fun (_ r : Int) => r + 1) 0 3 memH vHr memH vHr).toList = [1, 1, 2] ∧
+    (C13.histogram 3 [1, 2, 0, 2]).toList = [1, 1, 2] := by decide +kernel
+end Mahotas.C12.Examples4
